@@ -13,7 +13,7 @@ Definition hist : list op :=
    OSeek WSet 9005; OWrite [[33]]; OSeek WSet 8999; ORead [FCount 0; FAll]; OClose; OFlush].
 
 Example hist_hyps :
-  disc1 LNone hist = true /\ numfirst hist = true /\ cr_free big = true /\
+  disc1 LNone hist = true /\ cr_free big = true /\
   forallb op_cr_free hist = true /\
   supported (spec_results false (fst (s_open MRp big)) (snd (s_open MRp big)) hist) = true.
 Proof. vm_compute. repeat split. Qed.
@@ -37,7 +37,7 @@ Proof. vm_compute. reflexivity. Qed.
 Definition numfile : bytes := [32;49;50;46;53;10;45;55;32;46;53;32;97].   (* " 12.5\n-7 .5 a" *)
 Definition numhist : list op := [ORead [FNum]; ORead [FNum; FCount 1]; ORead [FNum]; ORead [FNum]; OClose].
 Example num_hyps :
-  disc1 LNone numhist = true /\ numfirst numhist = true /\ cr_free numfile = true /\
+  disc1 LNone numhist = true /\ cr_free numfile = true /\
   supported (spec_results false numfile (snd (s_open MR numfile)) numhist) = true /\
   spec_results false numfile (snd (s_open MR numfile)) numhist =
     [RVals [VNum 125 1]; RVals [VNum (-7) 0; VStr [32]]; RVals [VNum 5 1]; RVals [VNil]; RTrue].
